@@ -346,7 +346,6 @@ func c06FirstDiff(a, b *refcodec.Message) string {
 	return "?"
 }
 
-
 // sentNonce: the nonce carried by the (single) MessageSent of an outcome.
 func sentNonce(o Outcome) uint64 {
 	if ms := MessageSentOf(o.Events); len(ms) == 1 {
